@@ -19,7 +19,7 @@ from gverif.treemodel import MSpec, Tree, render_layout
 PID = 'C07'
 LEVEL = 'model_checking'
 RULE = ('base trees (files spread over 2-3 directories incl. nested, hidden and look-alike names) x every '
-        'assignment of {ok, missing, altered-same-size, altered-size, replaced-by-directory} to the listed '
+        'assignment of {ok, missing, altered-same-size, altered-size, replaced-by-directory, its directory replaced by a regular file} to the listed '
         'files x stray-file sets x verified sub-path x handler policy x scandir order; case = that tuple; '
         'non-trivial = at least one discrepancy and a definite reference offender set')
 ASSUMPTIONS = [
@@ -44,7 +44,7 @@ LAYOUTS = {
     'hidden_nested': (['a/.hd/f1', 'a/f2', 'a/c/.hd2/f3', 'b/f4'], []),
     'six': (['a/f1', 'a/f2', 'b/f3', 'b/c/f4', 'd/f5', 'f0'], ['b']),
 }
-STATES = ('ok', 'missing', 'altered', 'resized', 'dir')
+STATES = ('ok', 'missing', 'altered', 'resized', 'dir', 'pfile')
 POLICIES = ('false', 'true', 'none', 'first_false', 'last_false')
 
 
@@ -75,7 +75,21 @@ def build(layout, states, strays):
         elif st == 'dir':
             del t.files[p]
             t.dirs.add(p)
+    for p, st in zip(files, states):
+        if st == 'pfile' and '/' in p:
+            # the file's directory becomes a regular file: everything listed beneath it is missing now, and the
+            # regular file itself is a stray
+            d = os.path.dirname(p)
+            if any(d == q or d.startswith(q + '/') for q in t.files):
+                continue        # that directory (or one above it) is a regular file already
+            for q in [q for q in t.files if q.startswith(d + '/')]:
+                del t.files[q]
+            for q in [q for q in t.dirs if q == d or q.startswith(d + '/')]:
+                t.dirs.discard(q)
+            t.files[d] = b'was a directory'
     for d in strays:
+        if d.rstrip('#M') and (d.rstrip('#M') in t.files or any(d.rstrip('#M').startswith(q + '/') for q in t.files)):
+            continue        # that directory is a regular file now
         name = 'stray'
         if d.endswith('#M'):
             # a stray file that is named like a Manifest (only the real top-level one may be skipped)
@@ -246,7 +260,7 @@ def run_shard(spec, tier, seed, scratch):
     alld = sorted(Tree({p: b'' for p in files}).all_dirs() | {''})
     vdirs = [d for d in alld]
     nfiles = len(files)
-    state_menu = STATES if (nfiles <= 4 and tier == 'thorough') else ('ok', 'missing', 'altered', 'dir')
+    state_menu = STATES if (nfiles <= 4 and tier == 'thorough') else ('ok', 'missing', 'altered', 'dir', 'pfile')
     if s0 not in state_menu:
         return stats
     stray_sets = [()] + [(d,) for d in dirs] + [tuple(dirs)]
@@ -254,7 +268,12 @@ def run_shard(spec, tier, seed, scratch):
     stray_sets += [tuple(d + '#M' for d in dirs if d and d not in _subs) + ('',)]
     for rest in itertools.product(state_menu, repeat=nfiles - 1):
         states = (s0,) + rest
+        npf = states.count('pfile')
+        if tier == 'quick' and (npf > 1 or (npf == 1 and sum(x != 'ok' for x in states) > 2)):
+            continue        # quick: one directory-turned-file together with at most one other discrepancy
         for strays in stray_sets:
+            if tier == 'quick' and npf and len(strays) > 1:
+                continue
             if nfiles > 4 and strays and sum(s != 'ok' for s in states) > 2:
                 continue
             tree = build(layout, states, strays)
